@@ -555,6 +555,10 @@ func (r *Router) Close() error {
 
 	if r.closed {
 		r.logger.Debug("Already closed", nil)
+		// a previous Close may have timed out with handlers still running: don't report success before they are done
+		if timedout := r.waitForHandlers(); timedout {
+			return errors.New("router close timeout")
+		}
 		return nil
 	}
 
